@@ -116,6 +116,8 @@ def nextStep (counter stop step : Nat) : R (Nat × Bool) := do
 def forRun : Nat → Nat → Nat → Nat → List Nat → List Nat × String
   | 0, _, _, _, acc => (acc.reverse, "fuel")
   | fuel + 1, c, stop, step, acc =>
+    -- the test program stops itself right after the pass that uses up the fuel, before its NEXT
+    if fuel = 0 then ((c :: acc).reverse, "fuel") else
     match nextStep c stop step with
     | .error e => ((c :: acc).reverse, "err " ++ toString e)
     | .ok (c', true) => ((c :: acc).reverse, "end " ++ toString c')
@@ -129,5 +131,85 @@ def forLoop (fuel start stop step : Nat) : List Nat × String :=
     | .ok (c', true) => ([], "end " ++ toString c')
     | .ok (c', false) => forRun fuel c' stop step []
   else forRun fuel start stop step []
+
+/-! ### FOR operands that are variables, assigned to while the loop runs
+
+`for_` evaluates start, limit and step once and keeps *copies* (`.clone()`) of the converted values in the
+FOR record; `iterate_loop` adds the recorded step to the counter.  `env` is the part of the variable memory the
+operands live in (one slot per scalar / array element), the loop body is a list of assignments to it. -/
+
+/-- an operand of FOR: a value (literal, expression) or the variable / array element in a slot of the store -/
+inductive ForOperand where
+  | lit (v : Nat)
+  | var (slot : Nat)
+
+def ForOperand.eval (env : List Nat) : ForOperand → Nat
+  | .lit v => v
+  | .var i => env.getD i 0
+
+/-- an assignment in the loop body: `X = val` or `X = X + val` (on 16-bit patterns) -/
+structure ForAssign where
+  slot : Nat
+  incr : Bool
+  val : Nat
+
+def ForAssign.run (env : List Nat) (a : ForAssign) : List Nat :=
+  env.set a.slot (if a.incr then (env.getD a.slot 0 + a.val) % 65536 else a.val)
+
+/-- the body of pass `n` (counted from 1): the assignments are executed from pass `frm` on -/
+def forBodyRun (asg : List ForAssign) (frm n : Nat) (env : List Nat) : List Nat :=
+  if n ≥ frm then asg.foldl ForAssign.run env else env
+
+/-- `forRun` with the body's assignments executed in every pass; NEXT works on the FOR record -/
+def forRunEnv (asg : List ForAssign) (frm : Nat) :
+    Nat → Nat → List Nat → Nat → Nat → Nat → List Nat → List Nat × String
+  | 0, _, _, _, _, _, acc => (acc.reverse, "fuel")
+  | fuel + 1, n, env, c, stop, step, acc =>
+    if fuel = 0 then ((c :: acc).reverse, "fuel") else
+    match nextStep c stop step with
+    | .error e => ((c :: acc).reverse, "err " ++ toString e)
+    | .ok (c', true) => ((c :: acc).reverse, "end " ++ toString c')
+    | .ok (c', false) => forRunEnv asg frm fuel (n + 1) (forBodyRun asg frm n env) c' stop step (c :: acc)
+
+/-- `FOR I% = a TO b STEP s` with operands read from the store when FOR is executed -/
+def forLoopEnv (asg : List ForAssign) (frm fuel : Nat) (env : List Nat) (a b s : ForOperand) : List Nat × String :=
+  let start := a.eval env
+  let stop := b.eval env
+  let step := s.eval env
+  if (if sgn step ≥ 0 then gt start stop else gt stop start) then
+    match nextStep start stop step with
+    | .error e => ([], "err " ++ toString e)
+    | .ok (c', true) => ([], "end " ++ toString c')
+    | .ok (c', false) => forRunEnv asg frm fuel 1 env c' stop step []
+  else forRunEnv asg frm fuel 1 env start stop step []
+
+/-- a FOR record that keeps the step *operand* instead of a copy of its value (what `for_` would do without
+    `.clone()`, since `to_type` hands a same-typed variable through as a view of its buffer): NEXT adds whatever
+    the variable holds by then; the direction of the end test is still the one fixed at FOR -/
+def nextStepLive (counter stop dir step : Nat) : R (Nat × Bool) := do
+  let c ← iadd counter step
+  pure (c, if sgn dir > 0 then gt c stop else gt stop c)
+
+def forRunLive (asg : List ForAssign) (frm : Nat) (s : ForOperand) (dir : Nat) :
+    Nat → Nat → List Nat → Nat → Nat → List Nat → List Nat × String
+  | 0, _, _, _, _, acc => (acc.reverse, "fuel")
+  | fuel + 1, n, env, c, stop, acc =>
+    if fuel = 0 then ((c :: acc).reverse, "fuel") else
+    let env' := forBodyRun asg frm n env
+    match nextStepLive c stop dir (s.eval env') with
+    | .error e => ((c :: acc).reverse, "err " ++ toString e)
+    | .ok (c', true) => ((c :: acc).reverse, "end " ++ toString c')
+    | .ok (c', false) => forRunLive asg frm s dir fuel (n + 1) env' c' stop (c :: acc)
+
+def forLoopLive (asg : List ForAssign) (frm fuel : Nat) (env : List Nat) (a b s : ForOperand) : List Nat × String :=
+  let start := a.eval env
+  let stop := b.eval env
+  let step := s.eval env
+  if (if sgn step ≥ 0 then gt start stop else gt stop start) then
+    match nextStepLive start stop step step with
+    | .error e => ([], "err " ++ toString e)
+    | .ok (c', true) => ([], "end " ++ toString c')
+    | .ok (c', false) => forRunLive asg frm s step fuel 1 env c' stop []
+  else forRunLive asg frm s step fuel 1 env start stop []
 
 end PcbV.IntOps
